@@ -1,0 +1,8 @@
+//go:build verif
+
+// Contracts for package hash, read only by /verif/bin/vcheck (comment-only file: no effect on any build).
+package hash
+
+//@ func ComputeSHA3_256 mode int props C13 C09
+//@ requires result != nil
+//@ assigns *result
